@@ -110,7 +110,7 @@ func newStoreModel(c *Ctx) (*storeModel, string) {
 				hasDB = true
 			}
 			if core.QualTypeName(f.Type()) == "sync/atomic.Value" && strings.Contains(strings.ToLower(f.Name()), "radius") {
-				rad = f.Name()
+				rad = core.FieldDisplayName(nt, f)
 			}
 		}
 		if hasDB && rad != "" {
@@ -123,14 +123,14 @@ func newStoreModel(c *Ctx) (*storeModel, string) {
 				qt := core.QualTypeName(f.Type())
 				switch {
 				case qt == "sync/atomic.Uint64":
-					m.sizeFld = f.Name()
+					m.sizeFld = core.FieldDisplayName(nt, f)
 				case qt == "sync.Mutex" || qt == "sync.RWMutex":
-					m.mutexes = append(m.mutexes, f.Name())
+					m.mutexes = append(m.mutexes, core.FieldDisplayName(nt, f))
 				case qt == "github.com/ethereum/go-ethereum/p2p/enode.ID":
-					m.idFld = f.Name()
+					m.idFld = core.FieldDisplayName(nt, f)
 				default:
 					if b, ok := f.Type().Underlying().(*types.Basic); ok && b.Kind() == types.Uint64 && strings.Contains(strings.ToLower(f.Name()), "capacity") {
-						m.capField = f.Name()
+						m.capField = core.FieldDisplayName(nt, f)
 					}
 				}
 			}
